@@ -577,8 +577,9 @@ def genNestProgram (big : Bool) : Gen Out := do
       | .set xs => V.mkSet (xs ++ extraRow)
       | x => x
     let ok := isRel || Spec.rowsOf v = []
-    pure (mk s!"{vSrc lit} unnest n" (unnestExpr (ofV lit) "n")
-      (if ok then some (Spec.unnest lit "n") else none) "unnest-lit")
+    let o := mk s!"{vSrc lit} unnest n" (unnestExpr (ofV lit) "n")
+      (if ok then some (Spec.unnest lit "n") else none) "unnest-lit"
+    pure { o with cls := orCls o.cls (valueClass lit) }
   | 9 | 10 =>
     -- rank
     let k ← if isRel then pick h else pure "a"
